@@ -88,6 +88,35 @@ def check_minmax(rep, case, text, P, finest):
     return bad, [names.index(o) if o in names else None for o in order]
 
 
+def marinated_differs(marinate, path, truth):
+    """runs marinate on `path`; None or what differs between the unpickled reader and a fresh one / the stored data"""
+    from amr_kitchen import PlotfileCooker
+    run_main(marinate, ["marinate", path])
+    pk = path + ".pkl"
+    if not os.path.exists(pk):
+        return "marinate wrote no pickle beside the plotfile"
+    with open(pk, "rb") as f:
+        un = pickle.load(f)
+    with quiet():
+        fresh = PlotfileCooker(path, maxmins=True, ghost=True)
+    bad = []
+    for a in ("fields", "ndims", "time", "max_level", "limit_level", "geo_low", "geo_high", "factors", "step_numbers",
+              "dx", "boxes", "npoints", "cell_paths", "nfields"):
+        if repr(getattr(un, a, None)) != repr(getattr(fresh, a, None)):
+            bad.append(a)
+    for lv in range(fresh.limit_level + 1):
+        for key in ("files", "offsets"):
+            if list(un.cells[lv][key]) != list(fresh.cells[lv][key]): bad.append(f"cells[{lv}][{key}]")
+        if not np.array_equal(np.asarray(un.cells[lv]["indexes"]), np.asarray(fresh.cells[lv]["indexes"])): bad.append("indexes")
+        for f in fresh.fields:
+            if not np.array_equal(un.cells[lv]["mins"][f], fresh.cells[lv]["mins"][f], equal_nan=True): bad.append(f"mins[{f}]")
+        with quiet(), pools.controlled():
+            a = un[:][lv][0]; b = fresh[:][lv][0]
+        if not oracle.same_bits(a, b) or not oracle.same_bits(a, truth[(lv, 0)]):
+            bad.append(f"box data at level {lv}")
+    return f"unpickled reader differs from a fresh one in {bad[:5]}" if bad else None
+
+
 def run_spec(ctx, rep, spec, model, only=None):
     import amr_kitchen.minuterie as minuterie
     import amr_kitchen.marinate as marinate
@@ -157,31 +186,24 @@ def run_spec(ctx, rep, spec, model, only=None):
                 if spec["ndims"] != 3:
                     rep.count("marinate-2d-skipped")
                     continue
-                run_main(marinate, ["marinate", path])
-                pk = path + ".pkl"
-                if not os.path.exists(pk):
-                    rep.fail("marinate wrote no pickle beside the plotfile", case); continue
-                with open(pk, "rb") as f:
-                    un = pickle.load(f)
-                with quiet():
-                    fresh = PlotfileCooker(path, maxmins=True, ghost=True)
-                bad = []
-                for a in ("fields", "ndims", "time", "max_level", "limit_level", "geo_low", "geo_high", "factors", "step_numbers",
-                          "dx", "boxes", "npoints", "cell_paths", "nfields"):
-                    if repr(getattr(un, a, None)) != repr(getattr(fresh, a, None)):
-                        bad.append(a)
-                for lv in range(fresh.limit_level + 1):
-                    for key in ("files", "offsets"):
-                        if list(un.cells[lv][key]) != list(fresh.cells[lv][key]): bad.append(f"cells[{lv}][{key}]")
-                    if not np.array_equal(np.asarray(un.cells[lv]["indexes"]), np.asarray(fresh.cells[lv]["indexes"])): bad.append("indexes")
-                    for f in fresh.fields:
-                        if not np.array_equal(un.cells[lv]["mins"][f], fresh.cells[lv]["mins"][f], equal_nan=True): bad.append(f"mins[{f}]")
-                    with quiet(), pools.controlled():
-                        a = un[:][lv][0]; b = fresh[:][lv][0]
-                    if not oracle.same_bits(a, b) or not oracle.same_bits(a, truth[(lv, 0)]):
-                        bad.append(f"box data at level {lv}")
+                bad = marinated_differs(marinate, path, truth)
                 if bad:
-                    rep.fail(f"unpickled reader differs from a fresh one in {bad[:5]}", case)
+                    rep.fail(bad, case); continue
+                # the plotfile is rewritten in place (same file names, other values and time, as the writers of the
+                # toolbox do when the output directory exists) and marinated again: the pickle describes what is there now
+                spec2 = copy.deepcopy(spec)
+                spec2["data"] = dict(spec["data"], seed=spec["data"].get("seed", 0) + 17, mode="smallint" if spec["data"]["mode"] != "smallint" else "positive")
+                spec2["time"] = 7.25
+                tmp = ctx.newdir("c18w_")
+                truth2 = plotgen.materialize(spec2, tmp)
+                for r, _, fs in os.walk(tmp):
+                    for fn in fs:
+                        with open(os.path.join(r, fn), "rb") as src, open(os.path.join(path, os.path.relpath(os.path.join(r, fn), tmp)), "wb") as dst:
+                            dst.write(src.read())
+                rep.count("marinate-after-rewrite")
+                bad = marinated_differs(marinate, path, truth2)
+                if bad:
+                    rep.fail("after the plotfile was rewritten in place and marinated again: " + bad, dict(case, rewritten=True))
         except SystemExit as e:
             rep.fail(f"{tool} exited ({e.code}) on a valid invocation", case)
         except Exception as e:
